@@ -8,11 +8,11 @@ import vf
 GROUP = "RtConv"
 THEOREMS = ["C11_conv_roundtrip", "C11_wrapper_returns_go", "C11_args_all_or_error", "C11_args_old_refuted",
             "C11_uint32_result_refused", "C11_multi_return_order", "C11_roman_roundtrip", "C11_base64_roundtrip",
-            "C11_sort_sorted_perm"]
+            "C11_sort_sorted_perm", "C11_stable_wrapper_stable"]
 META = {
     "group": "RtConv",
     "technique": "Coq proofs over a Gallina model of the native-call value conversion, the Roman-numeral codec and the base64/sort glue + regenerated list of mirrored functions + differential run of every covered wrapper (ego binary) against the Go function called directly",
-    "text": "Proved: C11_conv_roundtrip (scalars and arrays of int/int16/uint16/int32/int64/bool/byte/float32/float64/string survive Ego->Go->Ego), C11_wrapper_returns_go (a pass-through wrapper returns what Go returns when the result is representable), C11_args_all_or_error (repaired: any unconvertible argument fails the call; C11_args_old_refuted for the old code), C11_multi_return_order, C11_roman_roundtrip (Rtoi(Itor n) = n for all 1..3999), C11_base64_roundtrip and C11_sort_sorted_perm (over the Go codec / Go sort laws as Section hypotheses). Every run regenerates the list of IsNative functions from the running package tables (each must be covered by signature or listed as exempt) and compares each covered wrapper through the real ego binary with the Go function called directly on random strings incl. Unicode, boundary numbers, NaN/Inf; Roman numerals exhaustively; base64 and sort laws on the real binary. partial: the Go library functions are trusted; cmplx/os/time/runtime mirrors and slice-taking functions are exempt from the differential run; JSON round trip and fmt verbs are not covered; sort stability only through the hypothesis",
+    "text": "Proved: C11_conv_roundtrip (scalars and arrays of int/int16/uint16/int32/int64/bool/byte/float32/float64/string survive Ego->Go->Ego), C11_wrapper_returns_go (a pass-through wrapper returns what Go returns when the result is representable), C11_args_all_or_error (repaired: any unconvertible argument fails the call; C11_args_old_refuted for the old code), C11_multi_return_order, C11_roman_roundtrip (Rtoi(Itor n) = n for all 1..3999), C11_base64_roundtrip, C11_sort_sorted_perm and C11_stable_wrapper_stable (over the Go codec / Go sort laws as Section hypotheses; the stable entries reach only stable Go sort functions by a go/ast table regenerated every run). Every run regenerates the list of IsNative functions from the running package tables (each must be covered by signature or listed as exempt) and compares each covered wrapper through the real ego binary with the Go function called directly on random strings incl. Unicode, boundary numbers, NaN/Inf; Roman numerals exhaustively; base64 and sort laws on the real binary. partial: the Go library functions are trusted; cmplx/os/time/runtime mirrors and slice-taking functions are exempt from the differential run; JSON round trip and fmt verbs are not covered; sort.Stable stability on scalars only through the regenerated table obligation",
     "note": "Trusted: Coq kernel; hand-written model of callNative conversions tied by an in-package harness on arrays of every element kind; harness/C11/*.go; props/C11.py generators; the ego binary's fmt.Println/strconv.Quote used to print results.",
 }
 
@@ -107,6 +107,34 @@ def run(ck):
         ck.violation("uncovered-mirrored-function", "mirrored (IsNative) function %s is neither covered by the differential generator nor listed as exempt" % u,
                      replay={"function": u}, found_input=False)
 
+    # ------------------------------------------------------------------ translator: which Go sort function each sort wrapper reaches
+    inp, outp = os.path.join(ck.work, "t.txt"), os.path.join(ck.work, "to.txt")
+    open(inp, "w").write("T %s\n" % os.path.join(vf.REPO, "internal/runtime/sort"))
+    rc, log = vf.run_bin(bind, "^TestVerifC11Direct$", {"VERIF_IN": inp, "VERIF_OUT": outp})
+    wrappers, reach = {}, {}
+    for l in open(outp):
+        f = l.split()
+        if len(f) == 3 and f[0] == "W":
+            wrappers[f[1]] = f[2]
+        elif len(f) == 3 and f[0] == "T":
+            reach[f[1]] = [] if f[2] == "-" else f[2].split(",")
+    GOFN = {"Slice": "GoSlice", "SliceStable": "GoSliceStable", "Stable": "GoStable", "Sort": "GoSort", "Ints": "GoInts", "Strings": "GoStrings",
+            "Float64s": "GoFloat64s", "Search": "GoSearch"}
+    sort_table = [(n, reach.get(w, None)) for n, w in sorted(wrappers.items())]
+    table_broken = None
+    if rc != 0 or not wrappers or any(r is None for _, r in sort_table) or "SliceStable" not in wrappers or "Stable" not in wrappers:
+        table_broken = "the sort package table / wrapper functions could not be read from internal/runtime/sort (go/ast): %s" % (log[-300:] if rc else sort_table)
+    elif not getattr(ck, "coq_broken", None):
+        rows = "; ".join("(%s, [%s])" % (vf.vN(n.encode()), "; ".join(GOFN.get(x, "GoOther") for x in r)) for n, r in sort_table)
+        okc, rr = vf.coq_eval(GROUP, ck.work, "sorttable", "From RtConv Require Import Model.\nDefinition tbl : list (str * list gosortfn) := [%s]." % rows,
+                              {"OK": "[if table_ok tbl && has_row name_SliceStable tbl && has_row name_Stable tbl then 1%nat else 0%nat]"})
+        ck.add_obligations(1, 1 if okc and rr["OK"] == [1] else 0)
+        if not okc or rr["OK"] != [1]:
+            bad = [(n, r) for n, r in sort_table if n in ("SliceStable", "Stable") and (not r or any(x not in ("SliceStable", "Stable") for x in r))]
+            table_broken = "generated obligation table_ok fails: the wrapper of a stable sort entry reaches a Go sort function that is not stable: %s" % bad
+    ck.cov.setdefault("input_distribution", {})
+    sort_reach_note = {n: r for n, r in sort_table if r}
+
     # ------------------------------------------------------------------ generated calls
     calls = []
     per = 6 if quick else 40
@@ -167,26 +195,61 @@ def run(ck):
     b64 = [rng.choice(STRS) + "".join(rng.choice("abcXYZ019 +/=éß日") for _ in range(rng.randint(0, 9))) for _ in range(12 if quick else 100)]
     for k, s in enumerate(b64):
         prog.append("  { d, e := base64.Decode(base64.Encode(%s)); fmt.Println(\"B\", %d, strconv.Quote(d), errs(e)) }" % (ego_str(s), k))
-    sorts = []
-    for k in range(10 if quick else 80):
-        kind = rng.choice(["Ints", "Strings", "Float64s"])
-        ln = rng.randint(0, 9)
-        if kind == "Ints":
-            vals = [rng.choice([0, 1, -1, 5, 5, 100, -100, 7, 2147483647]) for _ in range(ln)]
-            lit = "[]int{%s}" % ", ".join(str(v) for v in vals)
-            pr = "fmt.Println(\"S\", %d, a)" % k
-        elif kind == "Strings":
-            vals = [rng.choice(["b", "a", "", "ab", "B", "é", "a", "z"]) for _ in range(ln)]
-            lit = "[]string{%s}" % ", ".join(ego_str(v) for v in vals)
-            pr = "fmt.Println(\"S\", %d, strconv.Quote(strings.Join(a, \"|\")))" % k
+    # sort wrappers: every sorting entry of the package table, sizes around Go's insertion-sort threshold (12),
+    # few distinct keys carrying distinguishable payloads (key*1000+seq, or a struct compared on one field)
+    SIZES = [0, 1, 2, 12, 13, 50, 200]
+    sorts = []          # (wrapper, values as given, key function name)
+
+    def keyed(n, nkeys):
+        return [rng.randrange(nkeys) * 1000 + i for i in range(n)]
+    plan = []
+    for n in SIZES:
+        plan += [("Slice", n), ("SliceStable", n)]
+    plan += [("SliceStable-struct", 13), ("SliceStable-struct", rng.choice([50, 200])), ("Slice-struct", rng.choice([13, 50]))]
+    typed = ["Ints", "Strings", "Float64s", "Int32s", "Int64s", "Float32s", "Bytes", "Sort", "Stable", "Stable-strings"]
+    for i, t in enumerate(typed):
+        plan.append((t, SIZES[(i + rng.randrange(7)) % 7]))
+        plan.append((t, rng.choice([13, 50, 200])))
+    if not quick:
+        for _ in range(60):
+            plan.append((rng.choice(["Slice", "SliceStable", "SliceStable-struct"] + typed), rng.choice(SIZES + [rng.randint(3, 120)])))
+    for k, (wr, n) in enumerate(plan):
+        if wr in ("Slice", "SliceStable"):
+            vals = keyed(n, rng.choice([1, 2, 4, 7]))
+            sorts.append((wr, vals))
+            prog.append("  try { a := []int{%s}; sort.%s(a, func(i, j int) bool { return a[i] / 1000 < a[j] / 1000 }); fmt.Println(\"S\", %d, a) } catch (e) { fmt.Println(\"S\", %d, \"FAILED\", e) }" % (
+                ", ".join(map(str, vals)), wr, k, k))
+        elif wr.endswith("-struct"):
+            vals = keyed(n, rng.choice([2, 3, 5]))
+            sorts.append((wr, vals))
+            prog.append("  { a := []C11P{%s}; sort.%s(a, func(i, j int) bool { return a[i].k < a[j].k }); o := []int{}; "
+                        "for _, p := range a { o = append(o, p.k * 1000 + p.s) }; fmt.Println(\"S\", %d, o) }" % (
+                            ", ".join("C11P{k: %d, s: %d}" % (v // 1000, v % 1000) for v in vals), wr.split("-")[0], k))
+            prog[-1] = "  try " + prog[-1].strip() + " catch (e) { fmt.Println(\"S\", %d, \"FAILED\", e) }" % k
+        elif wr in ("Strings", "Stable-strings"):
+            vals = [rng.choice(["b", "a", "", "ab", "B", "é", "a", "z", "zz"]) for _ in range(n)]
+            sorts.append((wr, vals))
+            prog.append("  { a := []string{%s}; sort.%s(a); fmt.Println(\"S\", %d, strconv.Quote(strings.Join(a, \"|\"))) }" % (
+                ", ".join(ego_str(v) for v in vals), wr.split("-")[0], k))
+            prog[-1] = "  try " + prog[-1].strip() + " catch (e) { fmt.Println(\"S\", %d, \"FAILED\", e) }" % k
         else:
-            vals = [rng.choice([0.5, -1.5, 2.25, 0.0, 100.0, 2.25]) for _ in range(ln)]
-            lit = "[]float64{%s}" % ", ".join(repr(v) for v in vals)
-            pr = "fmt.Println(\"S\", %d, a)" % k
-        sorts.append((kind, vals))
-        prog.append("  { a := %s; sort.%s(a); %s }" % (lit, kind, pr))
+            ty = {"Ints": "int", "Float64s": "float64", "Int32s": "int32", "Int64s": "int64", "Float32s": "float32", "Bytes": "byte", "Sort": "int", "Stable": "int"}[wr]
+            if ty.startswith("float"):
+                vals = [rng.choice([0.5, -1.5, 2.25, 0.0, 100.0, 2.25, -7.75]) for _ in range(n)]
+                lit = ", ".join(repr(v) if v >= 0 else "(%r)" % v for v in vals)
+            elif ty == "byte":
+                vals = [rng.choice([0, 1, 7, 7, 200, 255, 128]) for _ in range(n)]
+                lit = ", ".join(map(str, vals))
+            else:
+                vals = [rng.choice([0, 1, -1, 5, 5, 100, -100, 7, 2147483647, -2147483648]) for _ in range(n)]
+                if wr == "Int32s" and n >= 2:
+                    vals[rng.randrange(n)] = -2147483648      # regression: math.MinInt32 (fix 312faacd)
+                lit = ", ".join(str(v) if v >= 0 else "(%d)" % v for v in vals)
+            sorts.append((wr, vals))
+            prog.append("  try { a := []%s{%s}; sort.%s(a); fmt.Println(\"S\", %d, a) } catch (e) { fmt.Println(\"S\", %d, \"FAILED\", e) }" % (ty, lit, wr, k, k))
     prog.append("}")
     prog.append('func errs(e error) string { if e != nil { return "error" }; return "noerr" }')
+    prog.insert(prog.index("func main() {"), "type C11P struct { k int; s int }")
     src = os.path.join(ck.work, "c11.ego")
     open(src, "w").write("\n".join(prog) + "\n")
     rc, eout = vf.sh([ego, "--set", "ego.compiler.extensions=true", "run", src], env=vf.ego_env(ck.work), timeout=900)
@@ -258,18 +321,44 @@ def run(ck):
             if B.get(k) != want:
                 found = True
                 ck.violation("base64-roundtrip", "base64.Decode(base64.Encode(%r)) = %s, want %s" % (s, B.get(k), want), replay={"text": s})
-        for k, (kind, vals) in enumerate(sorts):
-            if kind == "Strings":
+        for k, (wr, vals) in enumerate(sorts):
+            got = S.get(k)
+            bad = None
+            if wr in ("Strings", "Stable-strings"):
                 want = _go_quote("|".join(sorted(vals, key=lambda x: x.encode())))
+                if got != want:
+                    bad = "result %s, want %s" % (got, want)
             else:
-                want = "[" + ", ".join(_num(v) for v in sorted(vals)) + "]"
-            if S.get(k) != want:
+                try:
+                    out = [float(x) if "." in x or "e" in x else int(x) for x in re.findall(r"-?[0-9][0-9.e+-]*", got or "")]
+                except ValueError:
+                    out = None
+                if got is None or out is None or "FAILED" in got:
+                    bad = "the call failed or printed nothing (%r); Go sorts this input" % got
+                else:
+                    keyf = (lambda v: v // 1000) if wr.split("-")[0] in ("Slice", "SliceStable") else (lambda v: v)
+                    if sorted(out) != sorted(vals):
+                        bad = "result is not a permutation of the input: %r" % out[:20]
+                    elif any(keyf(out[i]) > keyf(out[i + 1]) for i in range(len(out) - 1)):
+                        bad = "result is not ordered: %r" % out[:20]
+                    elif wr.startswith("SliceStable"):
+                        # stability, computed here: elements with equal keys keep their input order
+                        want = sorted(vals, key=keyf)          # Python's sort is stable
+                        if out != want:
+                            i = next(j for j in range(len(out)) if out[j] != want[j])
+                            bad = "equal keys changed order at position %d (n=%d): got %r, input order gives %r" % (i, len(vals), out[max(0, i - 2):i + 3], want[max(0, i - 2):i + 3])
+            if bad:
                 found = True
-                ck.violation("sort-law", "sort.%s(%r) = %s, want %s" % (kind, vals, S.get(k), want), replay={"kind": kind, "values": vals})
+                ck.violation("sort-law:" + wr.split("-")[0], "sort.%s on %d elements: %s" % (wr, len(vals), bad), replay={"wrapper": wr, "values": vals})
+    if table_broken:
+        sort_found = any(v["signature"].startswith("sort-law") for v in ck.viol)
+        if not sort_found:
+            ck.violation("sort-table", table_broken, replay={"table": sort_table}, found_input=False)
     ck.cov["evaluations"] = len(calls) + rn + len(b64) + len(sorts)
     ck.cov["distinct_nontrivial"] = len(nontriv)
     ck.cov["input_distribution"] = {"mirrored_functions_covered": len(funcs), "exempt": sum(len(v) for v in EXEMPT.values()), "calls": len(calls),
-                                    "go_panics": sum(1 for v in gores.values() if v == "PANIC"), "roman": rn, "base64": len(b64), "sort": len(sorts)}
+                                    "go_panics": sum(1 for v in gores.values() if v == "PANIC"), "roman": rn, "base64": len(b64), "sort": len(sorts),
+                                    "sort_sizes": sorted(set(len(v) for _, v in sorts)), "sort_wrapper_reaches": sort_reach_note}
     for i in list(range(len(calls)))[:4]:
         ck.sample({"call": "%s.%s(%s)" % (calls[i][0], calls[i][1], ", ".join(v for _, v in calls[i][4])), "go": gores.get(i), "ego": egores.get(i)})
 
